@@ -338,7 +338,10 @@ func runE2E(seed int64, total int) (evs []jev, incomplete string) {
 	}
 	cl.mu.Unlock()
 	if cur != nil && rng.Intn(2) == 0 {
-		go func() { time.Sleep(time.Duration(rng.Intn(2000)) * time.Microsecond); cur.doCut([]string{"rst", "fin", "handler"}[int(seed)%3], "first") }()
+		go func() {
+			time.Sleep(time.Duration(rng.Intn(2000)) * time.Microsecond)
+			cur.doCut([]string{"rst", "fin", "handler"}[int(seed)%3], "first")
+		}()
 	}
 	curConn := func() *cutConn {
 		cl.mu.Lock()
